@@ -43,6 +43,9 @@ pub struct HostileCase {
     pub db: DbDesc,
     /// one request list per concurrent hostile client
     pub clients: Vec<Vec<Hostile>>,
+    /// number of TCP clients that connect and then stay silent (no request line) while the probes run
+    #[serde(default)]
+    pub silent_crowd: u16,
 }
 
 fn verdict_from(ctx: &Ctx, mut v: Verdict, findings: Vec<Finding>) -> Verdict {
